@@ -4,6 +4,7 @@ import VM.Driver.HistoryFam
 import VM.Driver.ValuesFam
 import VM.Driver.HelpersFam
 import VM.Driver.SimpleFam
+import VM.Driver.PostFam
 open Lean VM.Driver
 
 def dispatch (j : Json) : Json :=
@@ -14,6 +15,7 @@ def dispatch (j : Json) : Json :=
   | "values" => runValuesCase j
   | "helpers" => runHelpersCase j
   | "simple" => runSimpleCase j
+  | "post" => runPostCase j
   | "conc" | "rexp" => Json.mkObj [("model", Json.str "theorems only: outcomes are compared with solo runs / Go regexp by the harness")]
   | f => Json.mkObj [("bad", Json.str s!"unknown family {f}")]
 
